@@ -1362,6 +1362,45 @@ theorem parsenum_run (v : UInt8) (hv : ¬ (48 ≤ v ∧ v ≤ 57)) :
       (by rw [Nat.pow_succ]; omega) (by simp at hk; omega)]
     simp [decv]
 
+/-- Go's `parsenum` accepts a digit string iff no proper prefix has a value above 10^6 (the
+    `tooLarge` test is made before each digit is added). -/
+def PrefixOK : Bytes → Nat → Prop
+  | [], _ => True
+  | c :: r, n => n ≤ 1000000 ∧ PrefixOK r (n * 10 + (c.toNat - 48))
+
+/-- The width digits are accepted by `fmt` (every width of at most 7 digits is; the largest is
+    10000009). -/
+def WidthOK (ws : Bytes) : Prop := PrefixOK ws 0
+
+theorem parsenum_ok (v : UInt8) (hv : ¬ (48 ≤ v ∧ v ≤ 57)) :
+    ∀ (ws : Bytes) (n : Nat) (b : Bool), (∀ d ∈ ws, isDec d = true) → PrefixOK ws n →
+      parsenum (ws ++ [v]) n b = some (decv ws n, b || !ws.isEmpty, [v])
+  | [], n, b, _, _ => by simp [parsenum, hv, decv]
+  | d :: ws, n, b, hds, hok => by
+    have hd : 48 ≤ d ∧ d ≤ 57 := (isDec_iff d).1 (hds d (List.mem_cons_self ..))
+    have hsmall : ¬ n > 1000000 := by have := hok.1; omega
+    rw [List.cons_append, parsenum, if_pos hd, if_neg hsmall]
+    rw [parsenum_ok v hv ws _ true (fun x hx => hds x (List.mem_cons_of_mem _ hx)) hok.2]
+    simp [decv]
+
+theorem prefixOK_of_length : ∀ (ws : Bytes) (n k : Nat), (∀ d ∈ ws, isDec d = true) → n < 10 ^ k →
+    ws.length + k ≤ 7 → PrefixOK ws n
+  | [], _, _, _, _, _ => trivial
+  | d :: ws, n, k, hds, hn, hk => by
+    have hd : 48 ≤ d ∧ d ≤ 57 := (isDec_iff d).1 (hds d (List.mem_cons_self ..))
+    have hk6 : k ≤ 6 := by simp at hk; omega
+    have hpow : 10 ^ k ≤ 10 ^ 6 := Nat.pow_le_pow_right (by decide) hk6
+    have hdv : d.toNat - 48 < 10 := by
+      have : d.toNat ≤ 57 := hd.2
+      omega
+    refine ⟨by omega, ?_⟩
+    exact prefixOK_of_length ws _ (k + 1) (fun x hx => hds x (List.mem_cons_of_mem _ hx))
+      (by rw [Nat.pow_succ]; omega) (by simp at hk; omega)
+
+/-- Every width of at most seven digits is accepted. -/
+theorem widthOK_of_length (ws : Bytes) (hds : ∀ d ∈ ws, isDec d = true) (h : ws.length ≤ 7) : WidthOK ws :=
+  prefixOK_of_length ws 0 0 hds (by decide) (by omega)
+
 theorem verb_fmt_facts (v : UInt8) (hv : v = 100 ∨ v = 111 ∨ v = 120 ∨ v = 115) :
     (v ≠ 48 ∧ v ≠ 43 ∧ v ≠ 45 ∧ v ≠ 32) ∧ (97 ≤ v ∧ v ≤ 122) ∧ ¬ (48 ≤ v ∧ v ≤ 57) ∧
     ¬ (v = 46 ∨ v = 42 ∨ v = 91 ∨ v = 37 ∨ v ≥ 128 ∨ ¬ True) := by
@@ -1374,7 +1413,7 @@ theorem dec_not_flag : ∀ c : UInt8, (48 ≤ c ∧ c ≤ 57) → c ≠ 48 →
 
 /-- The call `fmt.Fprintf(sb, string(fmts), farg)` of a well-formed directive with a width of at
     most six digits is `printArg` with the directive's flags and width. -/
-theorem goFprintf_closed (d : MDir) (h : d.WF) (hw : d.width.length ≤ 6) (v : UInt8)
+theorem goFprintf_closed (d : MDir) (h : d.WF) (hw : WidthOK d.width) (v : UInt8)
     (hv : v = 100 ∨ v = 111 ∨ v = 120 ∨ v = 115) (farg : FArg) :
     goFprintf (d.fmts ++ [v]) farg = printArg d.flags d.wid farg v := by
   obtain ⟨hvf, hvl, hvd, hvok⟩ := verb_fmt_facts v hv
@@ -1413,8 +1452,7 @@ theorem goFprintf_closed (d : MDir) (h : d.WF) (hw : d.width.length ≤ 6) (v : 
     have hc : 48 ≤ c ∧ c ≤ 57 := (isDec_iff c).1 (h.width c (by rw [hwd]; exact List.mem_cons_self ..))
     have hcl := (dec_not_flag c hc (h.nz c r hwd)).2
     simp only [List.cons_append, hcl, if_false]
-    have hp := parsenum_run v hvd (c :: r) 0 false 0 (by rw [← hwd]; exact h.width) (by decide)
-      (by rw [← hwd]; omega)
+    have hp := parsenum_ok v hvd (c :: r) 0 false (by rw [← hwd]; exact h.width) (by rw [← hwd]; exact hw)
     simp only [List.cons_append] at hp
     rw [hp]
     simp only [not_true_eq_false] at hvok
@@ -1577,7 +1615,7 @@ theorem parseInt_range (a : Bytes) :
 
 /-- `%d` / `%i`: the model writes C's `%d` rendering (flags, zero padding, width) of the value Go
     parsed from the argument. -/
-theorem dir_out_signed (f : Bytes → Res) (d : MDir) (h : d.WF) (hw : d.width.length ≤ 6)
+theorem dir_out_signed (f : Bytes → Res) (d : MDir) (h : d.WF) (hw : WidthOK d.width)
     (hv : d.verb = 100 ∨ d.verb = 105) (a : Bytes) :
     d.out f a = Spec.fmtSigned d.spec (parseInt a).1 := by
   have h99 : d.verb ≠ 99 := by rcases hv with h | h <;> rw [h] <;> decide
@@ -1593,7 +1631,7 @@ theorem dir_out_signed (f : Bytes → Res) (d : MDir) (h : d.WF) (hw : d.width.l
 
 /-- `%u` / `%o` / `%x` without a `+` or space flag: C's rendering of the value Go parsed, taken
     modulo 2^64. -/
-theorem dir_out_unsigned (f : Bytes → Res) (d : MDir) (h : d.WF) (hw : d.width.length ≤ 6)
+theorem dir_out_unsigned (f : Bytes → Res) (d : MDir) (h : d.WF) (hw : WidthOK d.width)
     (hv : d.verb = 117 ∨ d.verb = 111 ∨ d.verb = 120) (hfl : d.flag = [] ∨ d.flag = [45]) (a : Bytes) :
     d.out f a = Spec.fmtUnsigned d.spec (if d.verb = 111 then 8 else if d.verb = 120 then 16 else 10)
       (toU64 (parseInt a).1) := by
@@ -1636,7 +1674,7 @@ theorem runeCount_ascii (s : Bytes) (h : ∀ b ∈ s, b < 128) : runeCount s = s
 
 /-- `%s` without the `0` flag: the argument padded with spaces to the width, on the left or (flag
     `-`) on the right — provided the width is absent or the argument is ASCII (Go counts runes). -/
-theorem dir_out_string (f : Bytes → Res) (d : MDir) (h : d.WF) (hw : d.width.length ≤ 6)
+theorem dir_out_string (f : Bytes → Res) (d : MDir) (h : d.WF) (hw : WidthOK d.width)
     (hv : d.verb = 115) (hz : d.zeros = 0) (a : Bytes) (ha : d.width = [] ∨ ∀ b ∈ a, b < 128) :
     d.out f a = Spec.padTo d.spec.minus d.spec.width a := by
   unfold MDir.out
@@ -1739,6 +1777,343 @@ theorem numeric_arg_decimal (c0 : UInt8) (t : Bytes) (h : ∀ d ∈ c0 :: t, 48 
   · rw [if_neg hle]
     simp only [maxU64] at hle
     simp [two63, maxU64]; omega
+
+
+/-! ## numeric arguments: every well-formed C integer literal -/
+
+/-- `c` is a digit below `b` for Go's `digitVal` and for the specification's `hexVal` alike. -/
+def bothLt (b : Nat) (c : UInt8) : Bool :=
+  match digitVal c, Spec.hexVal c with
+  | some x, some y => x == y && decide (x < b)
+  | _, _ => false
+
+theorem bothLt_iff (b : Nat) (c : UInt8) :
+    bothLt b c = true ↔ ∃ x, digitVal c = some x ∧ Spec.hexVal c = some x ∧ x < b := by
+  unfold bothLt
+  cases digitVal c <;> cases Spec.hexVal c <;> simp
+  intro _; exact eq_comm
+
+def BothDigits (b : Nat) (ds : Bytes) : Prop := ∀ d ∈ ds, bothLt b d = true
+
+theorem BothDigits.valid {b : Nat} {ds : Bytes} (h : BothDigits b ds) : ValidDigits b ds := fun d hd => by
+  obtain ⟨x, h1, _, h3⟩ := (bothLt_iff b d).1 (h d hd)
+  exact ⟨x, h1, h3⟩
+
+theorem scanDigits_both (b : Nat) : ∀ (ds : Bytes) (acc : Nat) (any : Bool), BothDigits b ds →
+    Spec.scanDigits b ds acc any = (foldv b ds acc, [], any || !ds.isEmpty)
+  | [], acc, any, _ => by simp [Spec.scanDigits, foldv_nil]
+  | d :: ds, acc, any, h => by
+    obtain ⟨x, h1, h2, h3⟩ := (bothLt_iff b d).1 (h d (List.mem_cons_self ..))
+    rw [Spec.scanDigits, h2]
+    simp only [h3, if_true]
+    rw [scanDigits_both b ds _ true (fun y hy => h y (List.mem_cons_of_mem _ hy)), foldv_cons, h1]
+    simp
+
+theorem dec_both : ∀ c : UInt8, (48 ≤ c ∧ c ≤ 57) → bothLt 10 c = true := by
+  apply uint8_forall; decide +kernel
+theorem oct_both : ∀ c : UInt8, (48 ≤ c ∧ c ≤ 55) → bothLt 8 c = true := by
+  apply uint8_forall; decide +kernel
+theorem hex_both : ∀ c : UInt8, isDigitChar true c = true → bothLt 16 c = true := by
+  apply uint8_forall; decide +kernel
+
+/-- Facts about the first character of a numeral body. -/
+theorem dec_head : ∀ c : UInt8, (48 ≤ c ∧ c ≤ 57) →
+    c ≠ 43 ∧ c ≠ 45 ∧ c ≠ 39 ∧ c ≠ 34 ∧ Spec.isSpace c = false ∧
+    lower c ≠ 98 ∧ lower c ≠ 111 ∧ lower c ≠ 120 ∧ c ≠ 120 ∧ c ≠ 88 := by
+  apply uint8_forall; decide +kernel
+
+/-- The unsigned part of Go's result: the value, or 2^64-1 with a range error. -/
+def clampU (v : Nat) : Nat × NumErr := if v ≤ maxU64 then (v, .ok) else (maxU64, .range)
+
+theorem loop_clampU (b : Nat) (hb : 1 ≤ b) (s ds : Bytes) (hv : ValidDigits b ds) :
+    (match parseUintLoop b true (maxU64 / b + 1) (2 ^ 64 - 1) ds 0 false with
+      | (n, NumErr.ok, us) => if us = true ∧ ¬ underscoreOK s = true then (0, NumErr.syntax) else (n, NumErr.ok)
+      | (n, e, _) => (n, e)) = clampU (foldv b ds 0) := by
+  have hloop := parseUintLoop_valid b hb true (2 ^ 64 - 1) (by decide) false ds 0 hv (Nat.zero_le _)
+  have hm : (2 : Nat) ^ 64 - 1 = maxU64 := by decide
+  rw [hloop, hm]
+  unfold clampU
+  by_cases hle : foldv b ds 0 ≤ maxU64
+  · simp [hle]
+  · simp [hle]
+
+/-- The three shapes of an unsigned C integer literal, with base and digit string. -/
+inductive NumBody : Bytes → Nat → Bytes → Prop
+  | dec (c0 : UInt8) (t : Bytes) : (∀ d ∈ c0 :: t, 48 ≤ d ∧ d ≤ 57) → c0 ≠ 48 → NumBody (c0 :: t) 10 (c0 :: t)
+  | oct (t : Bytes) : (∀ d ∈ t, 48 ≤ d ∧ d ≤ 55) → NumBody (48 :: t) 8 t
+  | hex (x : UInt8) (t : Bytes) : (x = 120 ∨ x = 88) → t ≠ [] → (∀ d ∈ t, isDigitChar true d = true) →
+      NumBody (48 :: x :: t) 16 t
+
+theorem NumBody.both {body ds : Bytes} {b : Nat} (h : NumBody body b ds) : BothDigits b ds := by
+  cases h with
+  | dec c0 t hd _ => exact fun d hd' => dec_both d (hd d hd')
+  | oct t ho => exact fun d hd' => oct_both d (ho d hd')
+  | hex x t _ _ hh => exact fun d hd' => hex_both d (hh d hd')
+
+/-- `ParseUint(body, 0, 0)` on a literal: its value, clamped. -/
+theorem parseUint_body {body ds : Bytes} {b : Nat} (h : NumBody body b ds) :
+    parseUint body 0 0 = clampU (foldv b ds 0) := by
+  have hv := h.both.valid
+  cases h with
+  | dec c0 t hd h0 =>
+    unfold parseUint
+    simp only [reduceCtorEq, if_false, if_true, h0, beq_self_eq_true]
+    exact loop_clampU 10 (by decide) _ _ hv
+  | oct _ ho =>
+    unfold parseUint
+    simp only [reduceCtorEq, if_false, if_true, beq_self_eq_true]
+    cases ds with
+    | nil => simp [parseUintLoop, clampU, foldv_nil, maxU64]
+    | cons c1 t2 =>
+      obtain ⟨_, _, _, _, _, l1, l2, l3, _, _⟩ := dec_head c1
+        ⟨(ho c1 (List.mem_cons_self ..)).1, Nat.le_trans (ho c1 (List.mem_cons_self ..)).2 (by decide)⟩
+      simp only [l1, l2, l3, and_false, if_false]
+      exact loop_clampU 8 (by decide) _ _ hv
+  | hex x _ hx hne hh =>
+    unfold parseUint
+    have hl : lower x = 120 := by rcases hx with h | h <;> subst h <;> decide
+    cases ds with
+    | nil => exact absurd rfl hne
+    | cons d1 t' =>
+      have hlen : (48 :: x :: d1 :: t').length ≥ 3 := by simp
+      simp only [reduceCtorEq, if_false, if_true, beq_self_eq_true, hl, hlen, true_and,
+        show ¬ ((120 : UInt8) = 98) by decide, show ¬ ((120 : UInt8) = 111) by decide]
+      exact loop_clampU 16 (by decide) _ _ hv
+
+/-- What bash's strtoimax scan yields on a literal after the sign has been taken off. -/
+theorem scan_body {body ds : Bytes} {b : Nat} (h : NumBody body b ds) (neg : Bool) (s : Bytes) :
+    (match body with
+      | c0 :: r0 =>
+        if c0 = 48 then
+          match r0 with
+          | c1 :: r1 =>
+            if c1 = 120 ∨ c1 = 88 then
+              match Spec.scanDigits 16 r1 0 false with
+              | (v, rest, true) => ({ neg := neg, mag := v, rest := rest } : Spec.Scan)
+              | _ => { neg := neg, mag := 0, rest := r0 }
+            else
+              let r := Spec.scanDigits 8 r0 0 true
+              { neg := neg, mag := r.1, rest := r.2.1 }
+          | [] => { neg := neg, mag := 0, rest := [] }
+        else
+          match Spec.scanDigits 10 body 0 false with
+          | (v, rest, true) => { neg := neg, mag := v, rest := rest }
+          | _ => { neg := false, mag := 0, rest := s }
+      | [] => { neg := false, mag := 0, rest := s }) = { neg := neg, mag := foldv b ds 0, rest := [] } := by
+  have hb := h.both
+  cases h with
+  | dec c0 t hd h0 =>
+    simp [h0, scanDigits_both 10 _ 0 false hb]
+  | oct _ ho =>
+    cases ds with
+    | nil => simp [foldv_nil]
+    | cons c1 t2 =>
+      obtain ⟨_, _, _, _, _, _, _, _, n1, n2⟩ := dec_head c1
+        ⟨(ho c1 (List.mem_cons_self ..)).1, Nat.le_trans (ho c1 (List.mem_cons_self ..)).2 (by decide)⟩
+      simp [n1, n2, scanDigits_both 8 _ 0 true hb]
+  | hex x _ hx hne hh =>
+    have hne' : ds.isEmpty = false := by cases ds <;> simp_all
+    simp [hx, scanDigits_both 16 _ 0 false hb, hne']
+
+/-- ±v clamped to the int64 range: what both Go and bash end up with. -/
+def clampI (neg : Bool) (v : Nat) : Int :=
+  if neg then (if (v : Int) > 9223372036854775808 then -9223372036854775808 else -(v : Int))
+  else (if (v : Int) > 9223372036854775807 then 9223372036854775807 else (v : Int))
+
+/-- The tail of `ParseInt` once the sign is stripped and `ParseUint` has answered. -/
+def goClamp (neg : Bool) (r : Nat × NumErr) : Int × NumErr :=
+  match r with
+  | (_, .syntax) => (0, .syntax)
+  | (un, _) =>
+    if neg = false ∧ un ≥ two63 then (Int.ofNat (two63 - 1), .range)
+    else if neg = true ∧ un > two63 then (- Int.ofNat two63, .range)
+    else (if neg then - Int.ofNat un else Int.ofNat un, .ok)
+
+theorem goClamp_val (neg : Bool) (v : Nat) : (goClamp neg (clampU v)).1 = clampI neg v := by
+  unfold clampU goClamp clampI two63 maxU64
+  by_cases hle : v ≤ 18446744073709551615
+  · rw [if_pos hle]
+    cases neg
+    · by_cases h : v ≥ 9223372036854775808
+      · simp [h]; omega
+      · simp [h]; omega
+    · by_cases h : v > 9223372036854775808
+      · simp [h]; omega
+      · simp [h]; omega
+  · rw [if_neg hle]
+    cases neg <;> simp <;> omega
+
+theorem NumBody.head {body ds : Bytes} {b : Nat} (h : NumBody body b ds) :
+    ∃ c r, body = c :: r ∧ 48 ≤ c ∧ c ≤ 57 := by
+  cases h with
+  | dec c0 t hd _ => exact ⟨c0, t, rfl, hd c0 (List.mem_cons_self ..)⟩
+  | oct _ _ => exact ⟨48, _, rfl, by decide⟩
+  | hex x _ _ _ _ => exact ⟨48, _, rfl, by decide⟩
+
+theorem parseInt_clean (sign : Bytes) (hs : sign = [] ∨ sign = [43] ∨ sign = [45]) {body ds : Bytes} {b : Nat}
+    (h : NumBody body b ds) :
+    (parseInt (sign ++ body)).1 = clampI (decide (sign = [45])) (foldv b ds 0) := by
+  obtain ⟨c, r, hb, hc⟩ := h.head
+  obtain ⟨h43, h45, _⟩ := dec_head c hc
+  have hp := parseUint_body h
+  rw [← goClamp_val]
+  rcases hs with hs | hs | hs <;> subst hs
+  · subst hb
+    rw [← hp]
+    unfold parseInt goClamp
+    simp only [List.nil_append, reduceCtorEq, if_false, h43, h45]
+    cases parseUint (c :: r) 0 0 with
+    | mk un e => cases e <;> simp
+  · rw [← hp]
+    unfold parseInt goClamp
+    simp only [List.singleton_append, reduceCtorEq, if_false, if_true]
+    cases parseUint body 0 0 with
+    | mk un e => cases e <;> simp
+  · rw [← hp]
+    unfold parseInt goClamp
+    simp only [List.singleton_append, reduceCtorEq, if_false, if_true,
+      show ¬ ((45 : UInt8) = 43) by decide]
+    cases parseUint body 0 0 with
+    | mk un e => cases e <;> simp
+
+theorem scanNum_clean (sign : Bytes) (hs : sign = [] ∨ sign = [43] ∨ sign = [45]) {body ds : Bytes} {b : Nat}
+    (h : NumBody body b ds) :
+    Spec.scanNum (sign ++ body) = { neg := decide (sign = [45]), mag := foldv b ds 0, rest := [] } := by
+  obtain ⟨c, r, hb, hc⟩ := h.head
+  obtain ⟨h43, h45, _, _, hsp, _⟩ := dec_head c hc
+  have hsb := fun neg s => scan_body h neg s
+  rcases hs with hs | hs | hs <;> subst hs
+  · unfold Spec.scanNum
+    subst hb
+    simp only [List.nil_append, List.dropWhile, hsp, h43, h45, if_false]
+    exact hsb false _
+  · unfold Spec.scanNum
+    simp only [List.singleton_append, List.dropWhile, show Spec.isSpace 43 = false by decide,
+      show ¬ ((43 : UInt8) = 45) by decide, if_false, if_true]
+    exact hsb false _
+  · unfold Spec.scanNum
+    simp only [List.singleton_append, List.dropWhile, show Spec.isSpace 45 = false by decide, if_true]
+    exact hsb true _
+
+theorem signedArg_clean (sign : Bytes) (hs : sign = [] ∨ sign = [43] ∨ sign = [45]) {body ds : Bytes} {b : Nat}
+    (h : NumBody body b ds) :
+    Spec.signedArg (sign ++ body) = { val := clampI (decide (sign = [45])) (foldv b ds 0), bad := false } := by
+  obtain ⟨c, r, hb, hc⟩ := h.head
+  obtain ⟨_, _, h39, h34, _⟩ := dec_head c hc
+  have hq : Spec.quoteCode (sign ++ body) = none := by
+    rcases hs with hs | hs | hs <;> subst hs
+    · subst hb; simp [Spec.quoteCode, h39, h34]
+    · simp [Spec.quoteCode]
+    · simp [Spec.quoteCode]
+  unfold Spec.signedArg
+  rw [hq, scanNum_clean sign hs h]
+  simp only [clampI]
+  rcases hs with hs | hs | hs <;> subst hs <;> simp <;> omega
+
+/-- A well-formed C integer literal: optional sign, then decimal (no leading zero), `0` + octal
+    digits, or `0x`/`0X` + at least one hexadecimal digit. -/
+def CleanNum (a : Bytes) : Prop :=
+  ∃ sign body b ds, (sign = [] ∨ sign = [43] ∨ sign = [45]) ∧ NumBody body b ds ∧ a = sign ++ body
+
+theorem numeric_arg_clean (a : Bytes) (h : CleanNum a) :
+    (parseInt a).1 = (Spec.signedArg a).val ∧ (Spec.signedArg a).bad = false := by
+  obtain ⟨sign, body, b, ds, hs, hb, rfl⟩ := h
+  rw [parseInt_clean sign hs hb, signedArg_clean sign hs hb]
+  exact ⟨rfl, rfl⟩
+
+/-- The literal's value fits the signed 64-bit range (the region where `%u %o %x` agree). -/
+def InInt64 (neg : Bool) (v : Nat) : Prop := if neg then v ≤ 9223372036854775808 else v < 9223372036854775808
+
+theorem u_arith (neg : Bool) (v : Nat) (hr : InInt64 neg v) :
+    Int.ofNat (if v > maxU64 then maxU64 else if neg = true then (two64 - v) % two64 else v) =
+      Int.ofNat (toU64 (clampI neg v)) := by
+  unfold InInt64 at hr
+  unfold clampI toU64 two64 maxU64
+  cases neg
+  · simp only [Bool.false_eq_true, if_false] at hr ⊢
+    rw [if_neg (by omega), if_neg (by omega)]
+    congr 1
+    omega
+  · simp only [if_true] at hr ⊢
+    rw [if_neg (by omega), if_neg (by omega)]
+    congr 1
+    omega
+
+theorem unsignedArg_clean (sign : Bytes) (hs : sign = [] ∨ sign = [43] ∨ sign = [45]) {body ds : Bytes} {b : Nat}
+    (h : NumBody body b ds) (hr : InInt64 (decide (sign = [45])) (foldv b ds 0)) :
+    (Spec.unsignedArg (sign ++ body)).val = Int.ofNat (toU64 (parseInt (sign ++ body)).1) ∧
+    (Spec.unsignedArg (sign ++ body)).bad = false := by
+  obtain ⟨c, r, hb, hc⟩ := h.head
+  obtain ⟨_, _, h39, h34, _⟩ := dec_head c hc
+  have hq : Spec.quoteCode (sign ++ body) = none := by
+    rcases hs with hs | hs | hs <;> subst hs
+    · subst hb; simp [Spec.quoteCode, h39, h34]
+    · simp [Spec.quoteCode]
+    · simp [Spec.quoteCode]
+  rw [parseInt_clean sign hs h]
+  unfold Spec.unsignedArg
+  rw [hq, scanNum_clean sign hs h]
+  refine ⟨?_, rfl⟩
+  simp only
+  rw [← u_arith _ _ hr]
+
+
+/-! ## format reuse, step by step -/
+
+/-- The result of the printf loop does not depend on the fuel (beyond `len(args)`) and the bytes
+    already written are simply a prefix. -/
+theorem printfLoop_indep (fmt : Bytes) (hok : (formatArgs fmt []).errOf = none) :
+    ∀ (fuel1 fuel2 : Nat) (args : List Bytes) (acc1 acc2 : Bytes), args.length < fuel1 → args.length < fuel2 →
+      ∃ out, printfLoop fuel1 fmt args acc1 = .done { out := acc1 ++ out, status := 0 } ∧
+             printfLoop fuel2 fmt args acc2 = .done { out := acc2 ++ out, status := 0 }
+  | 0, _, args, _, _, h, _ => by omega
+  | _, 0, args, _, _, _, h => by omega
+  | f1 + 1, f2 + 1, args, acc1, acc2, h1, h2 => by
+    rw [printfLoop_succ, printfLoop_succ]
+    rcases formatArgs_cases fmt args with ⟨out, left, hfa, hle⟩ | ⟨out, e, hfa⟩
+    · simp only [hfa]
+      have hdl : (args.drop (args.length - left)).length = left := by simp; omega
+      rw [hdl]
+      by_cases hstop : args.length - left = 0 ∨ left = 0
+      · rw [if_pos hstop, if_pos hstop]; exact ⟨out, rfl, rfl⟩
+      · rw [if_neg hstop, if_neg hstop]
+        obtain ⟨out', ha, hb⟩ := printfLoop_indep fmt hok f1 f2 (args.drop (args.length - left))
+          (acc1 ++ out) (acc2 ++ out) (by rw [hdl]; omega) (by rw [hdl]; omega)
+        exact ⟨out ++ out', by rw [ha]; simp, by rw [hb]; simp⟩
+    · exfalso
+      have := formatArgs_errOf_indep fmt args []
+      rw [hfa, hok] at this
+      simp [Res.errOf] at this
+
+/-- Format reuse: when a pass leaves arguments (and consumed at least one), `printf` writes what
+    the pass wrote followed by what `printf` with the same format writes for the remaining ones. -/
+theorem printf_reuse_step (fmt : Bytes) (args : List Bytes) (out : Bytes) (left : Nat)
+    (h : formatArgs fmt args = .ok out left) (h0 : 0 < left) (hl : left < args.length) :
+    ∃ out', printfBuiltin (fmt :: args.drop (args.length - left)) = .done ⟨out', 0⟩ ∧
+      printfBuiltin (fmt :: args) = .done ⟨out ++ out', 0⟩ := by
+  have hok : (formatArgs fmt []).errOf = none := by
+    have := formatArgs_errOf_indep fmt args []
+    rw [h] at this
+    exact this.symm
+  have hdl : (args.drop (args.length - left)).length = left := by simp; omega
+  simp only [printfBuiltin]
+  obtain ⟨out', ha, hb⟩ := printfLoop_indep fmt hok ((args.drop (args.length - left)).length + 1)
+    args.length (args.drop (args.length - left)) [] ([] ++ out) (Nat.lt_succ_self _) (by rw [hdl]; exact hl)
+  refine ⟨out', by simpa using ha, ?_⟩
+  rw [printfLoop_succ, h]
+  simp only
+  rw [hdl, if_neg (by omega), hb]
+  simp
+
+
+/-- One pass of a format consisting of a single well-formed directive. -/
+theorem formatArgs_directive (d : MDir) (h : d.WF) (args : List Bytes) :
+    formatArgs d.render args = .ok (d.out formatNil (args.headD [])) args.tail.length := by
+  have := go_directive_out formatNil nestedOK_formatNil d h [] args
+  rw [List.append_nil] at this
+  unfold formatArgs
+  rw [this, go_nil]
+  simp [Res.prepend]
 
 
 end ShVerif.C24
